@@ -442,7 +442,7 @@ def probe_config(cfg, frame="base_link"):
     from perception_eval.config import PerceptionEvaluationConfig
 
     try:
-        PerceptionEvaluationConfig(["/nonexistent"], frame, os.path.join(TMP_ROOT, "r"), dict(cfg), load_raw_data=False)
+        PerceptionEvaluationConfig(["/nonexistent"], frame, os.path.join(TMP_ROOT, f"r{os.getpid()}"), dict(cfg), load_raw_data=False)
     except Exception as e:  # noqa: BLE001 - classification only
         return type(e).__name__
     return "accepted"
@@ -553,7 +553,7 @@ class ConfigCorr(Corr):
         frame = case["frame"]
         support = list(PerceptionEvaluationConfig._support_tasks)
         try:
-            c = PerceptionEvaluationConfig(["/nonexistent"], frame, os.path.join(TMP_ROOT, "r"), cfg, load_raw_data=False)
+            c = PerceptionEvaluationConfig(["/nonexistent"], frame, os.path.join(TMP_ROOT, f"r{os.getpid()}"), cfg, load_raw_data=False)
         except Exception as e:  # noqa: BLE001
             name = type(e).__name__
             if name not in ERRORS:
@@ -711,7 +711,7 @@ def evaluator(kind):
         from perception_eval.config import PerceptionEvaluationConfig
 
         task, variant = {"3d": ("detection", "autoware"), "2d": ("detection2d", "autoware"), "tl": ("classification2d", "traffic_light")}[kind]
-        _EVAL[kind] = PerceptionEvaluationConfig(["/nonexistent"], base_frame(task), os.path.join(TMP_ROOT, "r"),
+        _EVAL[kind] = PerceptionEvaluationConfig(["/nonexistent"], base_frame(task), os.path.join(TMP_ROOT, f"r{os.getpid()}"),
                                                  base_config(task, variant), load_raw_data=False)
     return _EVAL[kind]
 
